@@ -143,7 +143,7 @@ func (e *Exec) model() map[string]string {
 	}
 	vals := e.solver.GetValues(ts)
 	m := map[string]string{}
-	e.concretizeBlobs(m)
+	defer e.concretizeBlobs(m)
 	for i, in := range e.inputs {
 		v := vals[i]
 		switch in.T.S.K {
